@@ -180,6 +180,17 @@ def _sparse_case(draw, hi):
 
 
 @st.composite
+def _big_case(draw):
+    base = draw(G.big_int8_case(sizes=(70, 127, 100, 65)))
+    return {
+        "g": base["g"], "sol": base["sol"], "dtype": "int8", "kind": draw(st.sampled_from(["solved", "solved", "targeted", "lattice"])),
+        "mode": draw(st.sampled_from(MODES)), "mgs": draw(st.sampled_from(["none", "n"])),
+        "flavour": draw(st.sampled_from(["modular", "legacy", "mode"])), "input": draw(st.sampled_from(["list", "string"])),
+        "np_seed": draw(st.integers(0, 2**32 - 1)),
+    }
+
+
+@st.composite
 def _dataset(draw, hi):
     n = draw(st.sampled_from([2, 3, 4, 5, 11]))
     items = draw(st.lists(G.solved_case(lo=n, hi=n, square=True, connected=True), min_size=1, max_size=5))
@@ -201,5 +212,6 @@ def subs(tier: str):
     return [
         Sub("mazes", check, "hypothesis", strategy=lambda: _case(20), examples=60 if q else 4000),
         Sub("sparse-mazes", check, "hypothesis", strategy=lambda: _sparse_case(20), examples=40 if q else 2000),
+        Sub("large-grids", check, "hypothesis", strategy=_big_case, examples=2 if q else 20),
         Sub("datasets", check_dataset, "hypothesis", strategy=lambda: _dataset(20), examples=20 if q else 1000),
     ]
